@@ -301,8 +301,8 @@ PROPS = {
     },
     "C19": {
         "level": "other",
-        "rules": [("MP", 6, None), ("SL", 7, None), ("CP", 3, has("ser_bdd")), ("VO", 2, has("var_at_level")),
-                  ("CN", 1, has("dedup")), ("DP", 2, has("from_dimacs:sign")), ("SR", 1, has("ser_bdd"))],
+        "rules": [("MP", 8, None), ("SL", 7, None), ("CP", 3, has("ser_bdd")), ("VO", 2, has("var_at_level")),
+                  ("CN", 1, has("dedup")), ("DP", 9, has("from_dimacs:sign", "from_sexpr")), ("SR", 1, has("ser_bdd"))],
         "explanation": "In each tool the counted / serialised diagram is the compiled one, compiled on a builder whose order "
                        "comes from the same formula; counts are taken on smooth(_, num_vars); weights are keyed by the "
                        "expression's own variable mapping (MP, SL2). Not decided: the printed numbers.",
